@@ -975,7 +975,9 @@ def rule_transparent_groups(ctx):
     facts = ctx.facts
     ctx.rule(rule, "a helper that looks through a parenthesis group the printer elides (transparent_*_group) peels a layer only when that "
                    "layer has no leading comments; pun recognition is asked about the written payload or about such a helper's result: "
-                   "the pun fast path prints the field name only, so a comment on a peeled layer would never be emitted")
+                   "the pun fast path prints the field name only, so a comment on a peeled layer would never be emitted; the printers of a "
+                   "written `field = payload` (named_term, named_pattern, projection_pattern) ask about the helper's result, so that "
+                   "eliding the parentheses and punning happen in one run")
     helpers = [p for p in facts.bodies() if re.search(r"PrettyFormatter::<'arena>::transparent_\w+_group$", p)]
     ctx.floor(rule, "transparent-group helpers", len(helpers), 1)
     for fn in sorted(helpers):
@@ -996,9 +998,14 @@ def rule_transparent_groups(ctx):
             if H.kind(node) == "MethodCall" and node["name"] in ("term_payload", "pattern_payload"):
                 n += 1
                 arg = A.sexpr(node["args"][1], env)
-                ok = re.match(r"^\$P\d+$", arg) is not None or re.match(r"^\(%stransparent_\w+_group \$P0 " % re.escape(FORMATTER), arg) is not None \
-                    or re.search(r"/\w+\.\w+$|^\(\. ", arg) is not None
-                ctx.check(ok, rule, "%s:%s" % (p.split("::")[-1], node["name"]), "%s asks the pun recogniser about %s" % (p.split("::")[-1], arg[:100]),
+                helper = re.match(r"^\(%stransparent_\w+_group \$P0 " % re.escape(FORMATTER), arg) is not None
+                # the printers of a written `field = payload` print the payload through the parenthesis-eliding printer: they
+                # must pun against what that printer will show (F52: `(field = (field))` was punned only by the second run)
+                strict = p.split("::")[-1] in ("named_term", "named_pattern", "projection_pattern")
+                ok = helper or (not strict and (re.match(r"^\$P\d+$", arg) is not None or re.search(r"/\w+\.\w+$|^\(\. ", arg) is not None))
+                ctx.check(ok, rule, "%s:%s" % (p.split("::")[-1], node["name"]), "%s asks the pun recogniser about %s%s" % (p.split("::")[-1], arg[:100],
+                          ": the written payload, not the payload seen through the singleton groups the printer elides; `(field = (field))` "
+                          "prints as `(field = field)` and only the next run puns it" if strict else ""),
                           [bd["loc"][0], node.get("ln")], detail={"fn": p.split("::")[-1], "payload": arg[:60]})
     ctx.floor(rule, "pun recognition sites", n, 3)
 
@@ -1145,3 +1152,36 @@ def rule_comment_text(ctx):
                               "%s reads the text of a comment but is not one of the audited printers" % p, [bd["loc"][0], x.get("ln")],
                               detail={"reader": p.split("::")[-1]})
     ctx.floor(rule, "readers of comment text", n, 3)
+
+
+def rule_comment_indentation(ctx):
+    rule = "comment-indentation"
+    facts = ctx.facts
+    ctx.rule(rule, "capture and emission of a multi-line block comment agree on the base column of its continuation lines: capture "
+                   "(CommentBlocks::opening_indentation) removes the opening column when the comment opens its line and NOTHING when it "
+                   "follows code; the printer (block_comment) prints the continuation lines under the current nesting when the comment "
+                   "starts its line (column == nesting) and with the nesting cancelled otherwise. If the printer adds the nesting in "
+                   "both cases, every run indents the continuation lines of a comment that follows code further (the text of the "
+                   "comment changes and the output never becomes stable)")
+    fn = COMMENT + "CommentBlocks::<'source>::opening_indentation"
+    h = ctx.need_hir(rule, fn)
+    cap = None
+    if h is not None:
+        env = A.ArmEnv(); env.strip = True; env.bind_params(h); env.absorb(h["body"])
+        sx = A.sexpr(h["body"], env)
+        m = re.match(r"^\(if \(core::iter::traits::iterator::Iterator::all \(core::str::<impl str>::chars (?P<P>.+)\) [\w:]*::is_horizontal_whitespace\) "
+                     r"\(core::str::<impl str>::len (?P=P)\) 0\)$", sx, re.S)
+        cap = m is not None
+        ctx.check(cap, rule, "capture:opening-column-or-zero", "opening_indentation is not `if the text before the opener on its line is "
+                  "horizontal whitespace then its length else 0`: %s" % sx[:300], facts.bodies()[fn]["loc"], detail={"body": sx[:300]})
+    fn = FORMATTER + "block_comment"
+    h = ctx.need_hir(rule, fn)
+    if h is not None:
+        env = A.ArmEnv(); env.strip = True; env.bind_params(h); env.absorb(h["body"])
+        sx = A.sexpr(h["body"], env)
+        T = r"pretty::RcDoc::<'a, A>::"
+        m = re.match(r"^\(%scolumn \(closure \(%snesting \(closure \(if \(Eq \$c0\.0 \$c1\.0\) (?P<L>\(%sintersperse .+\)) "
+                     r"\(%snest (?P=L) \(Neg [^$]*\$c1\.0[^$]*\)\)\)\)\)\)\)$" % (T, T, T, T), sx, re.S)
+        ctx.check(m is not None, rule, "emission:nesting-cancelled-after-code", "block_comment does not print the same lines under the "
+                  "nesting when the comment starts its line (column == nesting) and with `nest(-nesting)` otherwise: %s" % sx[:400],
+                  facts.bodies()[fn]["loc"], detail={"body": sx[:200]})
